@@ -173,7 +173,7 @@ func TestF10LoopClosesOnAssignerFailure(t *testing.T) {
 
 type failSvc struct{}
 
-func (failSvc) Assigner() (jrpc2.Assigner, error)        { return nil, errors.New("nope") }
+func (failSvc) Assigner() (jrpc2.Assigner, error)         { return nil, errors.New("nope") }
 func (failSvc) Finish(jrpc2.Assigner, jrpc2.ServerStatus) {}
 
 type oneAccepter struct {
